@@ -24,6 +24,9 @@ CHECKS = {
  'C07': dict(cat=MC, technique='TLA+ transcription of the class selection of Binned (searchsorted-left, +1 row, range guard; scalar, one-table and per-point paths) vs the definition "least class whose upper edge is >= |load|"; TLC enumerates the whole lattice; every state looked up in real Binned objects',
    text='The case analysis is finite per (bins, branch); TLC proves coded class choice = definition (and the consequences: error iff above max, never under-estimates, monotone, < 1 class) on the lattice of loads on/between/beyond class edges, and each lattice state is one implementation test: exact laws compared exactly, real laws against the wrapped law evaluated on the table edges; per-point tables vs each point alone; look-ups must not depend on call history.',
    note='edges as doubles taken from the table; solver accuracy of the wrapped laws is C06 (not claimed); known finding C07-onebin (number_of_bins=1 raises)', ref='5 C07'),
+ 'C08': dict(cat=MC, technique='TLA+ transcription of WoehlerCurve (transform_to_failure_probability, _make_k, basquin_cycles/_load, Miner variants) on the log2 exponent lattice; TLC checks the algebraic laws on every lattice state; each state evaluated through the real accessor',
+   text='On powers of two with failure probabilities 10/50/90 % the whole algebra is exact integer arithmetic on exponents, so TLC decides inverse/monotone/knee/slope/Miner/scatter-ratio/group-law/identity on the specification for the full lattice, and every lattice state is an implementation test with the exact expected value (scalar, integer-typed, array, Series and DataFrame x Series broadcast forms; non-mutation of source and signal).',
+   note='lattice restriction (powers of two, three probabilities, slopes k and k/2); rel 1e-9 because the code shifts with 10**x', ref='5 C08'),
 }
 PENDING = 'check not built yet in this round (planned, see DESIGN.md section 5)'
 NA = {
